@@ -260,6 +260,360 @@ func randomScript(r *gen.Rng, o *out.W, prop string, p profile) {
 	o.Sample(fmt.Sprintf("%d stimuli/observations, first: %s", len(w.trace), strings.Join(w.trace[:min(len(w.trace), 6)], " ; ")))
 }
 
+// publisher-side script for C07: retransmissions, repeated / unknown PUBRELs, cuts, ack modes
+func c07Script(r *gen.Rng, o *out.W) {
+	w := newWorld(o, "C07", 10, 100, nil)
+	// one observer so that forwarding is visible end to end
+	ob := w.Conn()
+	w.Connect(ob, "OBS", true, nil, 0, "", "")
+	w.Subscribe(ob, packet.Subscription{Topic: "#", QOS: 2})
+	c := w.Conn()
+	w.Connect(c, "PUB", false, nil, 0, "", "")
+	type slot struct {
+		tag  string
+		qos  packet.QOS
+		open bool // handshake not finished from the publisher's point of view
+		rel  bool // PUBREL already sent once
+	}
+	slots := map[packet.ID]*slot{1: {}, 2: {}}
+	late := 0
+	steps := 10 + r.Intn(25)
+	for i := 0; i < steps; i++ {
+		if !w.alive(c) {
+			c = w.Reconnect(c, false)
+			continue
+		}
+		id := packet.ID(1 + r.Intn(2))
+		sl := slots[id]
+		// completed handshakes: PUBACK/PUBCOMP seen by the peer
+		for _, a := range w.peers[c].acks {
+			for pid, s2 := range slots {
+				if a == fmt.Sprintf("puback %d", pid) || a == fmt.Sprintf("pubcomp %d", pid) {
+					s2.open = false
+				}
+			}
+		}
+		w.peers[c].acks = nil
+		switch r.Intn(9) {
+		case 0, 1, 2:
+			if !sl.open {
+				w.seq++
+				sl.tag, sl.qos, sl.open, sl.rel = fmt.Sprintf("m%d", w.seq), packet.QOS(1+r.Intn(2)), true, false
+				w.Send(c, &packet.Publish{ID: id, Message: packet.Message{Topic: "t/" + sl.tag, QOS: sl.qos, Payload: []byte(sl.tag)}})
+			} else if !sl.rel {
+				// retransmission of the same message (only legal after a reconnect for QoS 2; harmless here for QoS 1)
+				if sl.qos == 1 {
+					w.Send(c, &packet.Publish{ID: id, Dup: true, Message: packet.Message{Topic: "t/" + sl.tag, QOS: sl.qos, Payload: []byte(sl.tag)}})
+				}
+			}
+		case 3, 4:
+			if sl.open && sl.qos == 2 {
+				sl.rel = true
+				w.Send(c, &packet.Pubrel{ID: id})
+			} else {
+				w.Send(c, &packet.Pubrel{ID: packet.ID(3 + r.Intn(3))}) // unknown id
+			}
+		case 5:
+			w.FailSend(c, 1+r.Intn(2))
+		case 6:
+			w.Drop(c)
+			c = w.Reconnect(c, false)
+			// after a reconnect the publisher retransmits what is unfinished
+			for pid, s2 := range slots {
+				if s2.open && r.Intn(4) != 0 {
+					if s2.qos == 2 && s2.rel {
+						w.Send(c, &packet.Pubrel{ID: pid})
+					} else {
+						w.Send(c, &packet.Publish{ID: pid, Dup: true, Message: packet.Message{Topic: "t/" + s2.tag, QOS: s2.qos, Payload: []byte(s2.tag)}})
+					}
+				}
+			}
+		case 7:
+			if late < 5 {
+				late++
+				w.AckMode("late")
+			}
+		default:
+			w.AckMode("sync")
+			w.AckRelease()
+			late = 0
+		}
+	}
+	w.AckMode("sync")
+	w.AckRelease()
+	if !w.alive(c) {
+		c = w.Reconnect(c, false)
+	}
+	for pid, s2 := range slots {
+		if s2.open && s2.qos == 2 {
+			w.Send(c, &packet.Publish{ID: pid, Dup: true, Message: packet.Message{Topic: "t/" + s2.tag, QOS: 2, Payload: []byte(s2.tag)}})
+			w.Send(c, &packet.Pubrel{ID: pid})
+		}
+	}
+	w.AckAll(ob)
+	w.finish()
+	o.Distinct(strings.Join(w.trace, "\n"))
+	o.Sample(fmt.Sprintf("publisher script, %d lines: %s", len(w.trace), strings.Join(w.trace[10:min(len(w.trace), 18)], " ; ")))
+}
+
+// offline queueing for C08: a persistent subscriber goes away, messages pile up (beyond the
+// queue capacity in some runs), it comes back
+func c08Offline(r *gen.Rng, o *out.W) {
+	queue := r.Pick(3, 5, 100)
+	win := 1 + r.Intn(4)
+	w := newWorld(o, "C08", win, queue, nil)
+	a := w.Conn()
+	w.Connect(a, "PUB", true, nil, 0, "", "")
+	b := w.Conn()
+	w.Connect(b, "SUB", false, nil, 0, "", "")
+	w.Subscribe(b, packet.Subscription{Topic: "x/#", QOS: packet.QOS(r.Intn(3))}, packet.Subscription{Topic: "y", QOS: 2})
+	for round := 0; round < 1+r.Intn(3); round++ {
+		if r.Bool() {
+			w.Send(b, &packet.Disconnect{})
+		} else {
+			w.Drop(b)
+		}
+		n := 1 + r.Intn(queue+2)
+		if n > 8 {
+			n = 8
+		}
+		for i := 0; i < n; i++ {
+			w.Publish(a, []string{"x/1", "y", "x/2/3", "z"}[r.Intn(4)], packet.QOS(r.Intn(3)), false, false)
+		}
+		b = w.Reconnect(b, r.Intn(6) == 0)
+		if r.Intn(3) == 0 {
+			// lose the connection again in the middle of the resend / delivery
+			w.AckOne(b, 0)
+			w.FailSend(b, 1)
+			w.AckOne(b, 0)
+			if w.alive(b) {
+				w.Drop(b)
+			}
+			b = w.Reconnect(b, false)
+		}
+		w.AckAll(b)
+		if w.peers[b].clean {
+			w.Subscribe(b, packet.Subscription{Topic: "x/#", QOS: 1})
+		}
+	}
+	w.finish()
+	o.Distinct(strings.Join(w.trace, "\n"))
+	o.Sample(fmt.Sprintf("offline script window=%d queue=%d, %d lines", win, queue, len(w.trace)))
+}
+
+// termination causes for C12
+func c12Script(r *gen.Rng, o *out.W) {
+	creds := map[string]string(nil)
+	if r.Intn(4) == 0 {
+		creds = map[string]string{"user": "pass"}
+	}
+	w := newWorld(o, "C12", 2+r.Intn(3), 100, creds)
+	obs := w.Conn()
+	user, pass := "", ""
+	if creds != nil {
+		user, pass = "user", "pass"
+	}
+	w.Connect(obs, "OBS", false, nil, 0, user, pass)
+	w.Subscribe(obs, packet.Subscription{Topic: "will/#", QOS: 2})
+	if r.Bool() {
+		w.Drop(obs) // offline persistent observer
+	}
+	w.seq++
+	will := &packet.Message{Topic: "will/" + fmt.Sprint(w.seq), Payload: []byte(fmt.Sprintf("will-%d", w.seq)), QOS: packet.QOS(r.Intn(3)), Retain: r.Bool()}
+	c := w.Conn()
+	state := r.Intn(5)
+	cause := r.Intn(9)
+	desc := fmt.Sprintf("state=%d cause=%d", state, cause)
+	o.Count("c12/" + desc)
+	if cause == 8 && creds != nil {
+		w.Connect(c, "V", r.Bool(), will, 0, "user", "wrong") // rejected authentication
+	} else {
+		if state == 0 {
+			// the cause strikes before CONNECT
+		} else {
+			w.Connect(c, "V", r.Bool(), will, 0, user, pass)
+		}
+		switch state {
+		case 2: // mid inbound QoS 2 handshake
+			w.Publish(c, "q", 2, false, false)
+		case 3: // mid outbound handshake
+			w.Subscribe(c, packet.Subscription{Topic: "q", QOS: 2})
+			w.Publish(c, "q", 2, false, false)
+			w.Release(c)
+		case 4: // window full
+			w.Subscribe(c, packet.Subscription{Topic: "q", QOS: 1})
+			for i := 0; i < 6; i++ {
+				w.Publish(c, "q", 1, false, false)
+			}
+		}
+		if w.alive(c) {
+			switch cause {
+			case 0:
+				w.Send(c, &packet.Disconnect{})
+			case 1:
+				w.Drop(c)
+			case 2:
+				w.Send(c, &packet.Connack{}) // out-of-protocol
+			case 3:
+				w.Send(c, packet.NewConnect()) // second / first-not-accepted connect
+			case 4:
+				n := w.Conn()
+				w.Connect(n, "V", r.Bool(), nil, 0, user, pass) // displaced by a newer connection
+			case 5:
+				w.BackendClose()
+			case 6:
+				w.FailSend(c, 1)
+				w.Send(c, &packet.Pingreq{})
+			case 7:
+				w.Send(c, &packet.Suback{ID: 1, ReturnCodes: []packet.QOS{0}}) // server-only packet
+			default:
+				w.Drop(c)
+			}
+		}
+	}
+	// a late subscriber sees a retained will
+	if cause != 5 {
+		l := w.Conn()
+		w.Connect(l, "LATE", true, nil, 0, user, pass)
+		w.Subscribe(l, packet.Subscription{Topic: "will/#", QOS: 1})
+		if !w.alive(obs) {
+			obs = w.Reconnect(obs, false)
+		}
+		w.AckAll(obs)
+		w.AckAll(l)
+	}
+	w.finish()
+	o.Distinct(desc + fmt.Sprint(will.QOS, will.Retain))
+	o.Sample("termination " + desc)
+}
+
+// request/response and pre-connect behaviour for C20
+func c20Script(r *gen.Rng, o *out.W) {
+	creds := map[string]string(nil)
+	if r.Bool() {
+		creds = map[string]string{"user": "pass"}
+	}
+	w := newWorld(o, "C20", 10, 100, creds)
+	c := w.Conn()
+	mk := func(k int) packet.Generic {
+		switch k {
+		case 0:
+			p := packet.NewConnect()
+			p.ClientID = "X"
+			if creds != nil && r.Intn(3) != 0 {
+				p.Username, p.Password = "user", "pass"
+			} else if r.Intn(3) == 0 {
+				p.Username, p.Password = "user", "nope"
+			}
+			if r.Bool() {
+				p.Will = &packet.Message{Topic: "w", Payload: []byte("will-x"), QOS: 1}
+			}
+			return p
+		case 1:
+			return &packet.Connack{}
+		case 2:
+			w.seq++
+			return &packet.Publish{ID: packet.ID(100 + w.seq), Message: packet.Message{Topic: "zzz", QOS: packet.QOS(r.Intn(2)), Payload: []byte(fmt.Sprintf("m%d", w.seq))}}
+		case 3:
+			return &packet.Puback{ID: packet.ID(1 + r.Intn(3))}
+		case 4:
+			return &packet.Pubrec{ID: packet.ID(1 + r.Intn(3))}
+		case 5:
+			return &packet.Pubrel{ID: packet.ID(1 + r.Intn(3))}
+		case 6:
+			return &packet.Pubcomp{ID: packet.ID(1 + r.Intn(3))}
+		case 7:
+			p := &packet.Subscribe{ID: packet.ID(1 + r.Intn(65535))}
+			for i, n := 0, 1+r.Intn(8); i < n; i++ {
+				p.Subscriptions = append(p.Subscriptions, packet.Subscription{Topic: filters[r.Intn(len(filters))], QOS: packet.QOS(r.Intn(3))})
+			}
+			return p
+		case 8:
+			return &packet.Suback{ID: 3, ReturnCodes: []packet.QOS{1}}
+		case 9:
+			return &packet.Unsubscribe{ID: packet.ID(1 + r.Intn(65535)), Topics: []string{filters[r.Intn(len(filters))]}}
+		case 10:
+			return &packet.Unsuback{ID: 4}
+		case 11:
+			return &packet.Pingreq{}
+		case 12:
+			return &packet.Pingresp{}
+		}
+		return &packet.Disconnect{}
+	}
+	first := r.Intn(14)
+	if r.Bool() {
+		first = 0
+	}
+	desc := fmt.Sprintf("first=%d", first)
+	w.Send(c, mk(first))
+	n := 1 + r.Intn(3)
+	for i := 0; i < n && w.alive(c); i++ {
+		if r.Intn(3) == 0 {
+			// pipelined requests
+			var ps []packet.Generic
+			for j, m := 0, 2+r.Intn(5); j < m; j++ {
+				ps = append(ps, mk(r.Pick(7, 7, 9, 11, 11, 2)))
+			}
+			w.SendBatch(c, ps)
+			desc += " batch"
+		} else {
+			k := r.Intn(14)
+			if r.Intn(3) != 0 {
+				k = r.Pick(7, 9, 11, 2, 5)
+			}
+			desc += fmt.Sprintf(" %d", k)
+			w.Send(c, mk(k))
+		}
+	}
+	w.finish()
+	o.Distinct(desc + fmt.Sprint(creds != nil))
+	o.Sample("C20 " + desc)
+}
+
+// takeover storms for C13
+func c13Script(r *gen.Rng, o *out.W) {
+	w := newWorld(o, "C13", 1+r.Intn(3), 100, nil)
+	p := w.Conn()
+	w.Connect(p, "PUB", true, nil, 0, "", "")
+	cur := w.Conn()
+	w.Connect(cur, "V", false, &packet.Message{Topic: "w", Payload: []byte("will-v0"), QOS: 1}, 0, "", "")
+	w.Subscribe(cur, packet.Subscription{Topic: "t", QOS: 2}, packet.Subscription{Topic: "w", QOS: 1})
+	for i, n := 0, 2+r.Intn(6); i < n; i++ {
+		switch r.Intn(5) {
+		case 0, 1:
+			w.Publish(p, "t", packet.QOS(r.Intn(3)), false, false)
+		case 2:
+			w.AckOne(cur, r.Intn(3))
+		default:
+			// a newer connection with the same id while the old one is idle / mid-handshake / dying
+			if r.Intn(4) == 0 {
+				w.FailSend(cur, 1)
+			}
+			if r.Intn(4) == 0 {
+				w.Drop(cur)
+			}
+			old := cur
+			cur = w.Conn()
+			po := w.peers[old]
+			pn := w.peers[cur]
+			clean := r.Intn(4) == 0
+			if !clean {
+				pn.unacked = po.unacked
+			}
+			w.seq++
+			w.Connect(cur, "V", clean, &packet.Message{Topic: "w", Payload: []byte(fmt.Sprintf("will-v%d", w.seq)), QOS: 1}, 0, "", "")
+			if clean {
+				w.Subscribe(cur, packet.Subscription{Topic: "t", QOS: 1}, packet.Subscription{Topic: "w", QOS: 1})
+			}
+		}
+	}
+	w.AckAll(cur)
+	w.finish()
+	o.Distinct(strings.Join(w.trace, "\n"))
+	o.Sample(fmt.Sprintf("takeover script, %d lines", len(w.trace)))
+}
+
 func TestHarness(t *testing.T) {
 	if *fOut == "" {
 		t.Skip("no -out")
@@ -267,18 +621,57 @@ func TestHarness(t *testing.T) {
 	o := out.New(*fOut)
 	defer o.Close()
 	r := gen.New(*fSeed*1000003 + uint64(*fShard) + 4242)
-	n := 30
+	n := 40
 	if *fTier == "thorough" {
-		n = 600
+		n = 1200
 	}
 	n = n/(*fNShard) + 1
 	all := []packet.QOS{0, 1, 2}
+	rs := func(name string, p func() profile) {
+		for i := 0; i < n; i++ {
+			pp := p()
+			runCase(t, o, name, func() { randomScript(r, o, *fProp, pp) })
+		}
+	}
+	sc := func(name string, f func(*gen.Rng, *out.W)) {
+		for i := 0; i < n; i++ {
+			runCase(t, o, name, func() { f(r, o) })
+		}
+	}
 	switch *fProp {
 	case "C06":
-		for i := 0; i < n; i++ {
-			p := profile{window: 10, queue: 100, clients: 1 + r.Intn(4), steps: 30 + r.Intn(30), wSub: 6, wUnsub: 2, wPub: 10, wAck: 6, wPing: 1, qos: all, multiFilter: true}
-			runCase(t, o, "C06 random history", func() { randomScript(r, o, "C06", p) })
-		}
+		rs("C06 random history", func() profile {
+			return profile{window: 10, queue: 100, clients: 1 + r.Intn(5), steps: 30 + r.Intn(40), wSub: 6, wUnsub: 3, wPub: 10, wAck: 7, wPing: 1, qos: all, multiFilter: true}
+		})
+	case "C07":
+		sc("C07 publisher script", c07Script)
+	case "C08":
+		sc("C08 offline", c08Offline)
+		rs("C08 subscriber behaviours", func() profile {
+			return profile{window: 1 + r.Intn(4), queue: 100, clients: 2 + r.Intn(2), steps: 30 + r.Intn(40), wSub: 3, wPub: 10, wAck: 6, wDrop: 2, wRecon: 3, wFail: 2, qos: all}
+		})
+	case "C11":
+		rs("C11 retained", func() profile {
+			return profile{window: 10, queue: 100, clients: 2 + r.Intn(3), steps: 30 + r.Intn(40), wSub: 8, wUnsub: 1, wPub: 10, wAck: 6, wDrop: 1, wRecon: 2, retain: 60, wills: true, qos: all, multiFilter: true}
+		})
+	case "C12":
+		sc("C12 termination", c12Script)
+	case "C13":
+		sc("C13 takeover", c13Script)
+	case "C14":
+		rs("C14 hostile", func() profile {
+			return profile{window: 2 + r.Intn(4), queue: 100, clients: 2 + r.Intn(4), steps: 30 + r.Intn(40), wSub: 4, wUnsub: 1, wPub: 8, wAck: 4, wDrop: 3, wRecon: 4, wRelease: 1, wPing: 1, wBad: 6, wFail: 3, retain: 20, wills: true, qos: all, multiFilter: true}
+		})
+	case "C15":
+		rs("C15 ordering", func() profile {
+			return profile{window: 1 + r.Intn(10), queue: 100, clients: 2 + r.Intn(4), steps: 40 + r.Intn(60), wSub: 2, wPub: 14, wAck: 8, wDrop: 1, wRecon: 2, wFail: 1, qos: all}
+		})
+	case "C16":
+		rs("C16 window", func() profile {
+			return profile{window: 1 + r.Intn(4), queue: 100, clients: 2, steps: 40 + r.Intn(60), wSub: 2, wPub: 14, wAck: 9, wDrop: 1, wRecon: 2, qos: all}
+		})
+	case "C20":
+		sc("C20 request/response", c20Script)
 	default:
 		t.Fatalf("unknown property %s", *fProp)
 	}
